@@ -64,6 +64,15 @@ let rec sub n0 m =
             | O -> n0
             | S l -> sub k l)
 
+(** val leb : nat -> nat -> bool **)
+
+let rec leb n0 m =
+  match n0 with
+  | O -> true
+  | S n' -> (match m with
+             | O -> false
+             | S m' -> leb n' m')
+
 (** val eqb : bool -> bool -> bool **)
 
 let eqb b1 b2 =
@@ -802,6 +811,39 @@ let rec split_aux cur = function
 
 let split_lines bs =
   split_aux [] bs
+
+(** val lines_aux : n list -> n list -> n list list **)
+
+let rec lines_aux cur = function
+| [] -> (match cur with
+         | [] -> []
+         | _ :: _ -> (rev cur) :: [])
+| c :: r ->
+  if N.eqb c (Npos (XO (XI (XO XH))))
+  then (rev
+         (match cur with
+          | [] -> cur
+          | n0 :: cur' ->
+            (match n0 with
+             | N0 -> cur
+             | Npos p ->
+               (match p with
+                | XI p0 ->
+                  (match p0 with
+                   | XO p1 ->
+                     (match p1 with
+                      | XI p2 -> (match p2 with
+                                  | XH -> cur'
+                                  | _ -> cur)
+                      | _ -> cur)
+                   | _ -> cur)
+                | _ -> cur)))) :: (lines_aux [] r)
+  else lines_aux (c :: cur) r
+
+(** val str_lines : n list -> n list list **)
+
+let str_lines t =
+  lines_aux [] t
 
 (** val orelse : 'a1 option -> 'a1 option -> 'a1 option **)
 
@@ -1766,8 +1808,8 @@ let rec list_eqb a b =
 
 (** val escaped_matches : n list -> n list -> bool option **)
 
-let escaped_matches text line =
-  match decode text with
+let escaped_matches text0 line =
+  match decode text0 with
   | Some bs -> Some (list_eqb bs (trim_newlines line))
   | None -> None
 
@@ -4397,6 +4439,449 @@ let print_top r = match r with
   app (print a)
     (app ((Npos (XO (XO (XI (XI (XI (XI XH))))))) :: []) (print b))
 | _ -> print r
+
+type text = n list
+
+type ptest = { pt_title : text; pt_cmd : text list; pt_exps : text list;
+               pt_code : n option; pt_line : nat }
+
+type lp = { lp_title : text option; lp_cmd : text list; lp_exps : text list;
+            lp_code : n option; lp_in_command : bool; lp_start : nat option;
+            lp_cases : ptest list }
+
+(** val lp_init : lp **)
+
+let lp_init =
+  { lp_title = None; lp_cmd = []; lp_exps = []; lp_code = None;
+    lp_in_command = false; lp_start = None; lp_cases = [] }
+
+type 'a lres =
+| LOk of 'a
+| LErr
+
+(** val strip_prefix : text -> text -> text option **)
+
+let strip_prefix p l =
+  if starts_with p l then Some (skipn (length p) l) else None
+
+(** val p_DOLLAR : text **)
+
+let p_DOLLAR =
+  (Npos (XO (XO (XI (XO (XO XH)))))) :: ((Npos (XO (XO (XO (XO (XO
+    XH)))))) :: [])
+
+(** val p_GT : text **)
+
+let p_GT =
+  (Npos (XO (XI (XI (XI (XI XH)))))) :: ((Npos (XO (XO (XO (XO (XO
+    XH)))))) :: [])
+
+(** val is_digit : n -> bool **)
+
+let is_digit c =
+  (&&) (N.leb (Npos (XO (XO (XO (XO (XI XH)))))) c)
+    (N.leb c (Npos (XI (XO (XO (XI (XI XH)))))))
+
+(** val digits_value : n -> n list -> n **)
+
+let rec digits_value acc = function
+| [] -> acc
+| d :: r ->
+  digits_value
+    (N.add (N.mul acc (Npos (XO (XI (XO XH)))))
+      (N.sub d (Npos (XO (XO (XO (XO (XI XH)))))))) r
+
+(** val extract_exit_code : text -> n option **)
+
+let extract_exit_code = function
+| [] -> None
+| n0 :: r ->
+  (match n0 with
+   | N0 -> None
+   | Npos p ->
+     (match p with
+      | XI p0 ->
+        (match p0 with
+         | XI p1 ->
+           (match p1 with
+            | XO p2 ->
+              (match p2 with
+               | XI p3 ->
+                 (match p3 with
+                  | XI p4 ->
+                    (match p4 with
+                     | XO p5 ->
+                       (match p5 with
+                        | XH ->
+                          (match rev r with
+                           | [] -> None
+                           | n1 :: ds_rev ->
+                             (match n1 with
+                              | N0 -> None
+                              | Npos p6 ->
+                                (match p6 with
+                                 | XI p7 ->
+                                   (match p7 with
+                                    | XO p8 ->
+                                      (match p8 with
+                                       | XI p9 ->
+                                         (match p9 with
+                                          | XI p10 ->
+                                            (match p10 with
+                                             | XI p11 ->
+                                               (match p11 with
+                                                | XO p12 ->
+                                                  (match p12 with
+                                                   | XH ->
+                                                     let ds = rev ds_rev in
+                                                     (match ds with
+                                                      | [] -> None
+                                                      | _ :: _ ->
+                                                        if forallb is_digit ds
+                                                        then let v =
+                                                               digits_value
+                                                                 N0 ds
+                                                             in
+                                                             if N.leb v (Npos
+                                                                  (XI (XI (XI
+                                                                  (XI (XI (XI
+                                                                  (XI (XI (XI
+                                                                  (XI (XI (XI
+                                                                  (XI (XI (XI
+                                                                  (XI (XI (XI
+                                                                  (XI (XI (XI
+                                                                  (XI (XI (XI
+                                                                  (XI (XI (XI
+                                                                  (XI (XI (XI
+                                                                  XH)))))))))))))))))))))))))))))))
+                                                             then Some v
+                                                             else None
+                                                        else None)
+                                                   | _ -> None)
+                                                | _ -> None)
+                                             | _ -> None)
+                                          | _ -> None)
+                                       | _ -> None)
+                                    | _ -> None)
+                                 | _ -> None)))
+                        | _ -> None)
+                     | _ -> None)
+                  | _ -> None)
+               | _ -> None)
+            | _ -> None)
+         | _ -> None)
+      | _ -> None))
+
+(** val flush : lp -> ptest list -> lp **)
+
+let flush s cases =
+  { lp_title = None; lp_cmd = []; lp_exps = []; lp_code = None;
+    lp_in_command = s.lp_in_command; lp_start = None; lp_cases = cases }
+
+(** val end_testcase : lp -> nat -> lp lres **)
+
+let end_testcase s index =
+  match s.lp_cmd with
+  | [] -> (match s.lp_exps with
+           | [] -> LOk s
+           | _ :: _ -> LErr)
+  | _ :: _ ->
+    let tc = { pt_title = (match s.lp_title with
+                           | Some t -> t
+                           | None -> []); pt_cmd = s.lp_cmd; pt_exps =
+      s.lp_exps; pt_code = s.lp_code; pt_line = (S
+      (match s.lp_start with
+       | Some i -> i
+       | None -> index)) }
+    in
+    LOk (flush s (tc :: s.lp_cases))
+
+(** val add_body : (text -> bool) -> bool -> lp -> text -> nat -> lp lres **)
+
+let add_body pe_ok multi s line index =
+  let try_start =
+    if (||) multi (match s.lp_cmd with
+                   | [] -> true
+                   | _ :: _ -> false)
+    then strip_prefix p_DOLLAR line
+    else None
+  in
+  (match try_start with
+   | Some rest ->
+     let s1 = { lp_title = s.lp_title; lp_cmd = s.lp_cmd; lp_exps =
+       s.lp_exps; lp_code = s.lp_code; lp_in_command = true; lp_start =
+       s.lp_start; lp_cases = s.lp_cases }
+     in
+     (match match s1.lp_cmd with
+            | [] -> LOk s1
+            | _ :: _ -> end_testcase s1 index with
+      | LOk s2 ->
+        LOk { lp_title = s2.lp_title; lp_cmd = (app s2.lp_cmd (rest :: []));
+          lp_exps = s2.lp_exps; lp_code = s2.lp_code; lp_in_command =
+          s2.lp_in_command; lp_start =
+          (match s2.lp_start with
+           | Some n0 -> Some n0
+           | None -> Some index); lp_cases = s2.lp_cases }
+      | LErr -> LErr)
+   | None ->
+     (match if s.lp_in_command then strip_prefix p_GT line else None with
+      | Some rest ->
+        (match s.lp_cmd with
+         | [] -> LErr
+         | _ :: _ ->
+           LOk { lp_title = s.lp_title; lp_cmd = (app s.lp_cmd (rest :: []));
+             lp_exps = s.lp_exps; lp_code = s.lp_code; lp_in_command =
+             s.lp_in_command; lp_start = s.lp_start; lp_cases = s.lp_cases })
+      | None ->
+        (match extract_exit_code line with
+         | Some c ->
+           (match s.lp_code with
+            | Some _ -> LErr
+            | None ->
+              LOk { lp_title = s.lp_title; lp_cmd = s.lp_cmd; lp_exps =
+                s.lp_exps; lp_code = (Some c); lp_in_command = false;
+                lp_start = s.lp_start; lp_cases = s.lp_cases })
+         | None ->
+           if pe_ok line
+           then LOk { lp_title = s.lp_title; lp_cmd = s.lp_cmd; lp_exps =
+                  (app s.lp_exps (line :: [])); lp_code = s.lp_code;
+                  lp_in_command = false; lp_start = s.lp_start; lp_cases =
+                  s.lp_cases }
+           else LErr)))
+
+(** val set_title : lp -> text -> lp **)
+
+let set_title s t =
+  { lp_title = (Some t); lp_cmd = s.lp_cmd; lp_exps = s.lp_exps; lp_code =
+    s.lp_code; lp_in_command = s.lp_in_command; lp_start = s.lp_start;
+    lp_cases = s.lp_cases }
+
+(** val has_body : lp -> bool **)
+
+let has_body s =
+  match s.lp_cmd with
+  | [] -> (match s.lp_exps with
+           | [] -> false
+           | _ :: _ -> true)
+  | _ :: _ -> true
+
+(** val iNDENT : text **)
+
+let iNDENT =
+  (Npos (XO (XO (XO (XO (XO XH)))))) :: ((Npos (XO (XO (XO (XO (XO
+    XH)))))) :: [])
+
+(** val is_comment : text -> bool **)
+
+let is_comment = function
+| [] -> false
+| n0 :: _ ->
+  (match n0 with
+   | N0 -> false
+   | Npos p ->
+     (match p with
+      | XI p0 ->
+        (match p0 with
+         | XI p1 ->
+           (match p1 with
+            | XO p2 ->
+              (match p2 with
+               | XO p3 ->
+                 (match p3 with
+                  | XO p4 -> (match p4 with
+                              | XH -> true
+                              | _ -> false)
+                  | _ -> false)
+               | _ -> false)
+            | _ -> false)
+         | _ -> false)
+      | _ -> false))
+
+(** val cram_step : (text -> bool) -> lp -> text -> nat -> lp lres **)
+
+let cram_step pe_ok s line index =
+  if is_comment line
+  then LOk s
+  else (match line with
+        | [] -> if has_body s then end_testcase s index else LOk s
+        | _ :: _ ->
+          (match strip_prefix iNDENT line with
+           | Some rest -> add_body pe_ok true s rest index
+           | None ->
+             (match end_testcase s index with
+              | LOk s' -> LOk (set_title s' line)
+              | LErr -> LErr)))
+
+(** val cram_loop : (text -> bool) -> lp -> text list -> nat -> lp lres **)
+
+let rec cram_loop pe_ok s lines index =
+  match lines with
+  | [] -> if has_body s then end_testcase s index else LOk s
+  | l :: r ->
+    (match cram_step pe_ok s l index with
+     | LOk s' -> cram_loop pe_ok s' r (S index)
+     | LErr -> LErr)
+
+(** val parse_cram : (text -> bool) -> text list -> ptest list lres **)
+
+let parse_cram pe_ok lines =
+  match cram_loop pe_ok lp_init lines O with
+  | LOk s -> LOk (rev s.lp_cases)
+  | LErr -> LErr
+
+type bline =
+| BExp of text
+| BCode of text
+
+type block =
+| BTitle of text
+| BComment of text
+| BBlank
+| BTest of text * text list * bline list
+
+(** val render_bline : bline -> text **)
+
+let render_bline = function
+| BExp l -> app iNDENT l
+| BCode ds ->
+  app iNDENT
+    (app ((Npos (XI (XI (XO (XI (XI (XO XH))))))) :: [])
+      (app ds ((Npos (XI (XO (XI (XI (XI (XO XH))))))) :: [])))
+
+(** val render_block : block -> text list **)
+
+let render_block = function
+| BTitle l -> l :: []
+| BComment l -> l :: []
+| BBlank -> [] :: []
+| BTest (cmd, conts, body) ->
+  app ((app iNDENT (app p_DOLLAR cmd)) :: [])
+    (app (map (fun c -> app iNDENT (app p_GT c)) conts)
+      (map render_bline body))
+
+(** val render_cram : block list -> text list **)
+
+let render_cram d =
+  flat_map render_block d
+
+(** val title_ok : text -> bool **)
+
+let title_ok l = match l with
+| [] -> false
+| _ :: _ -> (&&) (negb (is_comment l)) (negb (starts_with iNDENT l))
+
+(** val comment_ok : text -> bool **)
+
+let comment_ok =
+  is_comment
+
+(** val exp_ok : (text -> bool) -> text -> bool **)
+
+let exp_ok pe_ok l =
+  (&&)
+    ((&&) (negb (starts_with p_DOLLAR l))
+      (match extract_exit_code l with
+       | Some _ -> false
+       | None -> true)) (pe_ok l)
+
+(** val code_ok : text -> bool **)
+
+let code_ok ds = match ds with
+| [] -> false
+| _ :: _ ->
+  (&&) (forallb is_digit ds)
+    (N.leb (digits_value N0 ds) (Npos (XI (XI (XI (XI (XI (XI (XI (XI (XI (XI
+      (XI (XI (XI (XI (XI (XI (XI (XI (XI (XI (XI (XI (XI (XI (XI (XI (XI (XI
+      (XI (XI XH))))))))))))))))))))))))))))))))
+
+(** val count_codes : bline list -> nat **)
+
+let rec count_codes = function
+| [] -> O
+| b :: r ->
+  (match b with
+   | BExp _ -> count_codes r
+   | BCode _ -> S (count_codes r))
+
+(** val body_ok : (text -> bool) -> bline list -> bool **)
+
+let body_ok pe_ok body =
+  (&&)
+    ((&&)
+      (forallb (fun b ->
+        match b with
+        | BExp l -> exp_ok pe_ok l
+        | BCode n0 -> code_ok n0) body) (leb (count_codes body) (S O)))
+    (match body with
+     | [] -> true
+     | b :: _ ->
+       (match b with
+        | BExp l -> negb (starts_with p_GT l)
+        | BCode _ -> true))
+
+(** val no_lf : text -> bool **)
+
+let no_lf l =
+  forallb (fun c ->
+    (&&) (negb (N.eqb c (Npos (XO (XI (XO XH))))))
+      (negb (N.eqb c (Npos (XI (XO (XI XH))))))) l
+
+(** val block_ok : (text -> bool) -> block -> bool **)
+
+let block_ok pe_ok = function
+| BTitle l -> (&&) (title_ok l) (no_lf l)
+| BComment l -> (&&) (comment_ok l) (no_lf l)
+| BBlank -> true
+| BTest (cmd, conts, body) ->
+  (&&) ((&&) ((&&) (body_ok pe_ok body) (no_lf cmd)) (forallb no_lf conts))
+    (forallb (fun b0 -> match b0 with
+                        | BExp l -> no_lf l
+                        | BCode _ -> true) body)
+
+(** val wf_cram : (text -> bool) -> block list -> bool **)
+
+let wf_cram pe_ok d =
+  forallb (block_ok pe_ok) d
+
+(** val exps_of0 : bline list -> text list **)
+
+let exps_of0 body =
+  flat_map (fun b -> match b with
+                     | BExp l -> l :: []
+                     | BCode _ -> []) body
+
+(** val code_of : bline list -> n option **)
+
+let code_of body =
+  match flat_map (fun b ->
+          match b with
+          | BExp _ -> []
+          | BCode ds -> (digits_value N0 ds) :: []) body with
+  | [] -> None
+  | n0 :: _ -> Some n0
+
+(** val tests_from : block list -> nat -> text option -> ptest list **)
+
+let rec tests_from d line title =
+  match d with
+  | [] -> []
+  | b :: r ->
+    (match b with
+     | BTitle l -> tests_from r (S line) (Some l)
+     | BTest (cmd, conts, body) ->
+       { pt_title = (match title with
+                     | Some t -> t
+                     | None -> []); pt_cmd = (cmd :: conts); pt_exps =
+         (exps_of0 body); pt_code = (code_of body); pt_line = (S
+         line) } :: (tests_from r
+                      (add (add (add line (S O)) (length conts))
+                        (length body)) None)
+     | _ -> tests_from r (S line) title)
+
+(** val cram_tests_of : block list -> ptest list **)
+
+let cram_tests_of d =
+  tests_from d O None
 
 (** val make_exp : bool -> bool -> (nat -> bool) -> nat exp **)
 
